@@ -122,6 +122,11 @@ def handle : List String → String
       let ok := if ctx == "dict1" then decide (12 + k * n ≤ Wire.maxArrayLen) else arrOk k n
       if ok then "ok" else "refuse"
     | _, _ => "bad-op"
+  -- an array of <n> fixed-size elements of width <k> that is completely present in the buffer (`decode_boundary`)
+  | "c18.fullarr" :: k :: n :: _ =>
+    match k.toNat?, n.toNat? with
+    | some k, some n => if arrOk k n then "ok" else "reject"
+    | _, _ => "bad-op"
   -- `marshal::marshal` from the lengths: header length incl. padding
   | "c18.msg" :: rest =>
     match parseLens rest with
